@@ -372,6 +372,7 @@ def c18():
         import stagecheck as _sc
 
         inputs += _sc.wide_types(chk)
+        inputs += _sc.shape_programs(chk, only=("argn", "nest", "dup"))
         outcome_hist = {}
         cli_expect = {}
         for path in inputs:
